@@ -33,8 +33,14 @@ ZZ = "zz"
 def mk_type(sp):
     k = sp[0]
     if k == "S":
-        return {"int": int, "float": float, "str": str, "bytes": bytes, "none": type(None),
-                "datetime": datetime.datetime, "timedelta": datetime.timedelta}[sp[1]]
+        return scalar_types()[sp[1]]
+    if k == "F":            # a frozen dataclass with one field v: T
+        import c12_types
+        return c12_types.field_class(json.dumps(sp[1]), mk_type(sp[1]))
+    if k == "FS":
+        return frozenset[mk_type(sp[1])]
+    if k == "DK":
+        return dict[mk_type(sp[1]), int]
     if k == "BL":
         return list
     if k == "BD":
@@ -78,6 +84,22 @@ def mk_type(sp):
     raise ValueError(sp)
 
 
+def scalar_types():
+    import decimal
+    import fractions
+    import pathlib
+    import uuid
+    return {"int": int, "float": float, "str": str, "bytes": bytes, "none": type(None),
+            "datetime": datetime.datetime, "timedelta": datetime.timedelta,
+            "date": datetime.date, "time": datetime.time, "decimal": decimal.Decimal, "fraction": fractions.Fraction,
+            "bool": bool, "uuid": uuid.UUID, "path": pathlib.Path, "purepath": pathlib.PurePath,
+            "winpath": pathlib.PureWindowsPath, "posixpath": pathlib.PurePosixPath}
+
+
+def _tz(offmin):
+    return None if offmin is None else datetime.timezone(datetime.timedelta(minutes=offmin))
+
+
 def mk_val(sp):
     k = sp[0]
     if k == "i":
@@ -92,9 +114,52 @@ def mk_val(sp):
         return sp[1]
     if k == "y":
         return sp[1].encode("latin1")
-    if k == "dt":
-        return datetime.datetime.fromisoformat(sp[1]).replace(
-            tzinfo=datetime.timezone(datetime.timedelta(minutes=sp[2])))
+    if k == "dt":           # ["dt", naive iso text, offset in minutes | null (naive), fold (optional)]
+        return datetime.datetime.fromisoformat(sp[1]).replace(tzinfo=_tz(sp[2]), fold=sp[3] if len(sp) > 3 else 0)
+    if k == "tm":           # ["tm", naive iso text, offset in minutes | null, fold (optional)]
+        return datetime.time.fromisoformat(sp[1]).replace(tzinfo=_tz(sp[2]), fold=sp[3] if len(sp) > 3 else 0)
+    if k == "date":
+        return datetime.date.fromisoformat(sp[1])
+    if k == "dec":
+        import decimal
+        return decimal.Decimal(sp[1])
+    if k == "frac":
+        import fractions
+        return fractions.Fraction(sp[1], sp[2])
+    if k == "cx":
+        return complex(float.fromhex(sp[1]), float.fromhex(sp[2]))
+    if k == "uuid":
+        import uuid
+        return uuid.UUID(sp[1])
+    if k == "path":
+        import pathlib
+        return getattr(pathlib, sp[1])(sp[2])
+    if k == "enum":
+        import c12_types
+        return c12_types.CLASSES[sp[1]][sp[2]]
+    if k == "sub":          # an instance of a subclass (c12_types) with the state of the base value
+        import c12_types
+        b = mk_val(sp[2])
+        cls = c12_types.CLASSES[sp[1]]
+        if isinstance(b, datetime.datetime):
+            return cls(b.year, b.month, b.day, b.hour, b.minute, b.second, b.microsecond, b.tzinfo, fold=b.fold)
+        if isinstance(b, datetime.date):
+            return cls(b.year, b.month, b.day)
+        if isinstance(b, datetime.time):
+            return cls(b.hour, b.minute, b.second, b.microsecond, b.tzinfo, fold=b.fold)
+        return cls(days=b.days, seconds=b.seconds, microseconds=b.microseconds)
+    if k == "pend":         # the pendulum counterpart of a stdlib temporal
+        import pendulum
+        b = mk_val(sp[1])
+        if isinstance(b, datetime.datetime):
+            return pendulum.instance(b)
+        if isinstance(b, datetime.date):
+            return pendulum.date(b.year, b.month, b.day)
+        if isinstance(b, datetime.time):
+            return pendulum.time(b.hour, b.minute, b.second, b.microsecond)
+        return pendulum.duration(days=b.days, seconds=b.seconds, microseconds=b.microseconds)
+    if k == "fobj":         # an instance of the frozen one-field dataclass for the declared type
+        return mk_type(["F", sp[1]])(v=mk_val(sp[2]))
     if k == "td":
         return datetime.timedelta(days=sp[1], seconds=sp[2], microseconds=sp[3])
     if k == "l":
@@ -153,10 +218,13 @@ def to_spec(x, depth=0):
         return ["s", x] if all(32 <= ord(c) < 127 for c in x) else ["o", "str", ascii(x)]
     if t is bytes:
         return ["y", x.decode("latin1")] if all(32 <= c < 127 for c in x) else ["o", "bytes", repr(x)]
-    if t is datetime.datetime and x.tzinfo is not None and type(x.tzinfo) is datetime.timezone:
+    if t in (datetime.datetime, datetime.time) and (x.tzinfo is None or type(x.tzinfo) is datetime.timezone):
         off = x.utcoffset()
-        if off.seconds % 60 == 0 and off.microseconds == 0:
-            return ["dt", x.replace(tzinfo=None).isoformat(), int(off.total_seconds() // 60)]
+        if off is None or (off.seconds % 60 == 0 and off.microseconds == 0 and x.tzinfo.tzname(None).startswith("UTC")):
+            return ["dt" if t is datetime.datetime else "tm", x.replace(tzinfo=None).isoformat(),
+                    None if off is None else int(off.total_seconds() // 60)] + ([x.fold] if x.fold else [])
+    if t is datetime.date:
+        return ["date", x.isoformat()]
     if t is datetime.timedelta:
         return ["td", x.days, x.seconds, x.microseconds]
     if t is list:
@@ -167,7 +235,37 @@ def to_spec(x, depth=0):
         return ["t", [to_spec(y, depth + 1) for y in x]]
     if t is set:
         return ["set", sorted((to_spec(y, depth + 1) for y in x), key=json.dumps)]
+    r = scalar_spec(x, t)
+    if r is not None:
+        return r
+    if isinstance(x, datetime.timedelta):       # a subclass (pendulum.Duration): its repr drops microseconds
+        p = datetime.timedelta.__pos__(x) if t.__pos__ is datetime.timedelta.__pos__ else +x
+        return ["o", t.__module__ + "." + t.__qualname__,
+                ascii(repr(x))[:300] + "|%d,%d,%d|%r,%r,%r" % (p.days, p.seconds, p.microseconds, x.days, x.seconds, x.microseconds)]
     return ["o", t.__module__ + "." + t.__qualname__, ascii(repr(x))[:300]]
+
+
+def scalar_spec(x, t):
+    """round-trippable specs of the remaining scalar kinds (exact class + every field that ==, hash or text read)"""
+    import decimal
+    import enum
+    import fractions
+    import pathlib
+    import uuid
+    if t is decimal.Decimal:
+        return ["dec", str(x)] if x.is_finite() else None
+    if t is fractions.Fraction:
+        return ["frac", x.numerator, x.denominator] if abs(x.numerator) < 2 ** 62 and x.denominator < 2 ** 62 else None
+    if t is complex:
+        return ["cx", x.real.hex(), x.imag.hex()]
+    if t is uuid.UUID:
+        return ["uuid", x.hex] if x.is_safe is uuid.SafeUUID.unknown else None
+    if t in (pathlib.PurePosixPath, pathlib.PureWindowsPath, pathlib.PosixPath):
+        txt = str(x)
+        return ["path", t.__name__, txt] if all(32 <= ord(c) < 127 for c in txt) and type(x)(txt) == x and str(type(x)(txt)) == txt else None
+    if isinstance(x, enum.Enum) and t.__module__ == "c12_types":
+        return ["enum", t.__name__, x.name] if x.name is not None and t.__members__.get(x.name) is x else None
+    return None
 
 
 def exc_kind(e):
@@ -241,7 +339,7 @@ def cache_groups():
     return g
 
 
-CONSTRUCTED = ('"obj"', '"iter"', '"odict"', '"deque"', '"fset"', '"set"')   # inputs rebuilt from their spec, not from a snapshot
+CONSTRUCTED = ('"obj"', '"iter"', '"odict"', '"deque"', '"fset"', '"set"', '"sub"', '"pend"', '"fobj"')   # inputs rebuilt from their spec, not from a snapshot
 
 
 def call_op(op, x):
@@ -488,6 +586,19 @@ def predicate_probe(req):
     return {"answers": [bool(f(mk_type(sp))) for sp in req["types"]]}
 
 
+def family_probe(req):
+    """the catalogue of equal-value families against the live interpreter: which members are ==/hash equal, whether
+    a member's spec is the canonical one (spec -> object -> spec is the identity; constructed kinds are exempt)"""
+    out = []
+    for members in req["families"]:
+        objs = [mk_val(m) for m in members]
+        eq = [[bool(_eq(a, b) and hash(a) == hash(b)) for b in objs] for a in objs]
+        distinct = [[a is not b for b in objs] for a in objs]
+        canon = [any(c in json.dumps(m) for c in CONSTRUCTED) or to_spec(o) == m for m, o in zip(members, objs)]
+        out.append({"eq": eq, "canon": canon, "distinct": distinct})
+    return {"families": out}
+
+
 def diagnose(ops, at, cold):
     """Replays ops[:at], then finds which cache makes ops[at] differ from its cold observation, and collects the
     facts the known-finding matchers look at."""
@@ -518,6 +629,11 @@ def diagnose(ops, at, cold):
     facts["equal_temporal_other_text"] = any(
         a == b and hash(a) == hash(b) and iso_body(a) != iso_body(b)
         for a in tm for b in prev)
+    # facts: the equal temporal is a timedelta of ANOTHER CLASS (a subclass such as pendulum.Duration re-defines the
+    # fields the duration writer reads)
+    facts["equal_timedelta_other_class_other_text"] = any(
+        isinstance(a, datetime.timedelta) and isinstance(b, datetime.timedelta) and type(a) is not type(b)
+        and a == b and hash(a) == hash(b) and iso_body(a) != iso_body(b) for a in tm for b in prev)
     # facts: an ==-equal annotation with another member order was used before
     cur = ann_subterms(mk_type(op["t"])) if "t" in op else []
     old = [s for o2 in ops[:at] if "t" in o2 for s in ann_subterms(mk_type(o2["t"]))]
@@ -560,9 +676,14 @@ def diagnose(ops, at, cold):
 
 
 # ---------------------------------------------------------------------------------- the world tables
-STY = ["SInt", "SFloat", "SStr", "SBytes", "SNone", "SDateTime", "STimeDelta"]
+import decimal as _decimal  # noqa: E402
+import fractions as _fractions  # noqa: E402
+
+STY = ["SInt", "SFloat", "SStr", "SBytes", "SNone", "SDateTime", "STimeDelta", "SDate", "STime", "SDecimal", "SFraction"]
 STY_T = {"SInt": int, "SFloat": float, "SStr": str, "SBytes": bytes, "SNone": type(None),
-         "SDateTime": datetime.datetime, "STimeDelta": datetime.timedelta}
+         "SDateTime": datetime.datetime, "STimeDelta": datetime.timedelta, "SDate": datetime.date,
+         "STime": datetime.time, "SDecimal": _decimal.Decimal, "SFraction": _fractions.Fraction}
+TEMPORAL_STY = ("SDateTime", "STimeDelta", "SDate", "STime")
 
 
 def world(atom_specs, maxidx):
@@ -571,8 +692,14 @@ def world(atom_specs, maxidx):
     from typelib import compat, serdes
     from typelib.py import inspection
     objs, keys = [], {}
+    # Which atoms need which tables: an atom a routine can be RUN on (an input atom, a member of an object strload /
+    # json.loads / list() / dict() / iteration produced from one, the ISO text a text routine continues with) gets
+    # everything ("full", two generations deep as before); an atom that only ever is a result gets the cheap tables
+    # (class predicates, ==/hash class, decode, JSON image) -- nothing else is ever looked up for it.
+    full_q, queued = [], {}
+    cur_gen = [0]
 
-    def intern(x):
+    def intern(x, full=False):
         sp = to_spec(x)
         if sp[0] in ("l", "d"):
             raise ValueError("not an atom")
@@ -580,20 +707,24 @@ def world(atom_specs, maxidx):
         if k not in keys:
             keys[k] = len(objs)
             objs.append((sp, x))
-        return keys[k]
+        i = keys[k]
+        if full and i not in queued and cur_gen[0] + 1 <= 1:
+            queued[i] = cur_gen[0] + 1
+            full_q.append(i)
+        return i
 
     def tree(x):
         if type(x) is list:
             return ["l", [tree(y) for y in x]]
         if type(x) is dict:
-            return ["d", [[intern(a), tree(b)] for a, b in x.items()]]
+            return ["d", [[intern(a, True), tree(b)] for a, b in x.items()]]
         if type(x) in (tuple, set, frozenset):
             raise ValueError("unmodelled container")
-        return ["a", intern(x)]
+        return ["a", intern(x, True)]
 
-    def res_atom(fn):
+    def res_atom(fn, full=False):
         try:
-            return ["ok", intern(fn())]
+            return ["ok", intern(fn(), full)]
         except Exception as e:  # noqa: BLE001
             return ["raise", exc_kind(e)] if not isinstance(e, ValueError) or str(e) != "not an atom" else ["unmodelled"]
 
@@ -612,80 +743,94 @@ def world(atom_specs, maxidx):
     intern(MARK); intern(ZZ); intern(None)
     for sp in atom_specs:
         intern(mk_val(sp))
+    for i in range(len(objs)):
+        queued[i] = 0
+        full_q.append(i)
     routines_u = {s: typelib.unmarshaller(T) for s, T in STY_T.items()}
     routines_m = {s: typelib.marshaller(T) for s, T in STY_T.items()}
     W = {k: {} for k in ("text", "temporal", "isdelta", "isnone", "eqc", "strload", "iso", "decode", "chars", "len2", "json",
                          "jkey", "loads", "castl", "castd")}
-    W["parse"] = {s: {} for s in ("SDateTime", "STimeDelta")}
-    W["post"] = {s: {} for s in ("SDateTime", "STimeDelta")}
+    W["parse"] = {s: {} for s in TEMPORAL_STY}
+    W["post"] = {s: {} for s in TEMPORAL_STY}
     W["leaf_u"] = {s: {} for s in STY}
     W["leaf_m"] = {s: {} for s in STY}
-    done = 0
-    rounds = 0
-    while done < len(objs) and rounds < 2:
-        rounds += 1
-        todo = range(done, len(objs))
-        done = len(objs)
-        for a in todo:
-            sp, x = objs[a]
-            istext = bool(inspection.istexttype(type(x)))
-            W["text"][a] = istext
-            W["temporal"][a] = isinstance(x, (datetime.date, datetime.time, datetime.timedelta))
-            W["isnone"][a] = x is None
-            W["isdelta"][a] = hasattr(serdes, "_isoduration") and not isinstance(x, (datetime.date, datetime.time)) \
-                or not hasattr(serdes, "_isoduration")
-            eq = a
-            for b in range(a):
+    qi = 0
+    while qi < len(full_q):
+        a = full_q[qi]
+        qi += 1
+        cur_gen[0] = queued[a]
+        sp, x = objs[a]
+        istext = bool(inspection.istexttype(type(x)))
+        W["chars"][a] = _chars(serdes, x, lambda v: intern(v, True))
+        W["castl"][a] = res_tree(lambda: list(x))
+        W["castd"][a] = res_tree(lambda: dict(x))
+        if istext:
+            W["strload"][a] = res_tree(lambda: load_cache().__wrapped__(x))
+            W["loads"][a] = res_tree(lambda: compat.json.loads(x))
+        W["iso"][a] = res_atom(lambda: iso_body(x), full=True)
+        for s in STY:
+            temporal_sty = s in TEMPORAL_STY
+            if not (temporal_sty and istext):
+                iso_cache().cache_clear(); serdes.dateparse.cache_clear()
+                W["leaf_u"][s][a] = res_atom(lambda: routines_u[s](x))
+            if not temporal_sty:
+                W["leaf_m"][s][a] = res_atom(lambda: routines_m[s](x))
+        if istext:
+            for s in TEMPORAL_STY:
                 try:
-                    if objs[b][1] == x and hash(objs[b][1]) == hash(x):
+                    d = serdes.decode(x)
+                except Exception:  # noqa: BLE001
+                    continue
+                if not isinstance(d, str):
+                    continue
+                da = intern(d)
+                try:
+                    p = serdes.dateparse.__wrapped__(d, STY_T[s])
+                except Exception as e:  # noqa: BLE001
+                    W["parse"][s][da] = ["raise", exc_kind(e)]
+                    continue
+                pa = intern(p)
+                W["parse"][s][da] = ["ok", pa]
+                serdes.dateparse.cache_clear()
+                post = res_atom(lambda: routines_u[s](x))
+                if pa in W["post"][s] and W["post"][s][pa] != post:
+                    W.setdefault("inconsistent", []).append([s, pa])
+                W["post"][s][pa] = post
+    # the cheap tables, for every atom (the JSON image of an atom may be a new atom: the list grows while it is walked)
+    cur_gen[0] = 99
+    buckets = {}
+    a = 0
+    while a < len(objs) and a < 200000:
+        sp, x = objs[a]
+        W["text"][a] = bool(inspection.istexttype(type(x)))
+        W["temporal"][a] = isinstance(x, (datetime.date, datetime.time, datetime.timedelta))
+        W["isnone"][a] = x is None
+        W["isdelta"][a] = hasattr(serdes, "_isoduration") and not isinstance(x, (datetime.date, datetime.time)) \
+            or not hasattr(serdes, "_isoduration")
+        eq = a
+        try:
+            hx = hash(x)
+        except Exception:  # noqa: BLE001
+            hx = None
+        if hx is not None:
+            for b in buckets.setdefault(hx, []):
+                try:
+                    if objs[b][1] == x:
                         eq = W["eqc"][b]
                         break
                 except Exception:  # noqa: BLE001
                     pass
-            W["eqc"][a] = eq
-            W["decode"][a] = res_atom(lambda: serdes.decode(x))
-            W["chars"][a] = _chars(serdes, x, intern)
-            try:
-                W["len2"][a] = bool(inspection.iscollectiontype(type(x)) and len(x) == 2)
-            except Exception:  # noqa: BLE001
-                W["len2"][a] = False
-            W["json"][a] = res_atom(lambda: compat.json.loads(compat.json.dumps(x)))
-            W["jkey"][a] = res_atom(lambda: next(iter(compat.json.loads(compat.json.dumps({x: 0})))))
-            W["castl"][a] = res_tree(lambda: list(x))
-            W["castd"][a] = res_tree(lambda: dict(x))
-            if istext:
-                W["strload"][a] = res_tree(lambda: load_cache().__wrapped__(x))
-                W["loads"][a] = res_tree(lambda: compat.json.loads(x))
-            if W["temporal"][a] or True:
-                W["iso"][a] = res_atom(lambda: iso_body(x))
-            for s in STY:
-                temporal_sty = s in ("SDateTime", "STimeDelta")
-                if not (temporal_sty and istext):
-                    iso_cache().cache_clear(); serdes.dateparse.cache_clear()
-                    W["leaf_u"][s][a] = res_atom(lambda: routines_u[s](x))
-                if not temporal_sty:
-                    W["leaf_m"][s][a] = res_atom(lambda: routines_m[s](x))
-            if istext:
-                for s in ("SDateTime", "STimeDelta"):
-                    try:
-                        d = serdes.decode(x)
-                    except Exception:  # noqa: BLE001
-                        continue
-                    if not isinstance(d, str):
-                        continue
-                    da = intern(d)
-                    try:
-                        p = serdes.dateparse.__wrapped__(d, STY_T[s])
-                    except Exception as e:  # noqa: BLE001
-                        W["parse"][s][da] = ["raise", exc_kind(e)]
-                        continue
-                    pa = intern(p)
-                    W["parse"][s][da] = ["ok", pa]
-                    serdes.dateparse.cache_clear()
-                    post = res_atom(lambda: routines_u[s](x))
-                    if pa in W["post"][s] and W["post"][s][pa] != post:
-                        W.setdefault("inconsistent", []).append([s, pa])
-                    W["post"][s][pa] = post
+            buckets[hx].append(a)
+        W["eqc"][a] = eq
+        W["decode"][a] = res_atom(lambda: serdes.decode(x))
+        try:
+            W["len2"][a] = bool(inspection.iscollectiontype(type(x)) and len(x) == 2)
+        except Exception:  # noqa: BLE001
+            W["len2"][a] = False
+        W["json"][a] = res_atom(lambda: compat.json.loads(compat.json.dumps(x)))
+        W["jkey"][a] = res_atom(lambda: next(iter(compat.json.loads(compat.json.dumps({x: 0})))))
+        a += 1
+    done = a
     from typelib import serdes as sd
     return {"atoms": [o[0] for o in objs], "tables": W, "complete": done == len(objs),
             "index": [keys[json.dumps(["i", i])] for i in range(maxidx)],
@@ -724,6 +869,8 @@ def handle(req):
         return world(req["atoms"], req["maxidx"])
     if k == "predicate":
         return predicate_probe(req)
+    if k == "family":
+        return family_probe(req)
     raise ValueError(k)
 
 
@@ -760,6 +907,11 @@ def main():
     sys.path.insert(0, os.path.dirname(os.path.abspath(__file__)))
     import typelib  # noqa: F401  (imported, never called, in the server)
     import impl  # noqa: F401
+    # harness classes (one frozen dataclass per declared scalar type) are created once, before any fork: creating
+    # them is the dataclasses module's work, no typelib function is called
+    import c12_families
+    for t in c12_families.all_types():
+        mk_type(["F", t])
     if "--fresh" in sys.argv:
         import warnings
         warnings.simplefilter("ignore")
